@@ -22,6 +22,7 @@ INVARIANT InvFailableMonotone
 INVARIANT InvAllMiss
 INVARIANT InvAllMissRejected
 INVARIANT InvVerdictCounts
+INVARIANT InvGenerousAccepted
 INVARIANT InvSafeArith
 INVARIANT InvRewriteKeepsValue
 INVARIANT InvRewriteSameAccepted
